@@ -465,7 +465,9 @@ func postBurst(rounds, posters, per int) (bool, string) {
 			returned := make(chan struct{})
 			go func() { wg.Wait(); close(returned) }()
 			close(start)
-			var since time.Time
+			// counted in polls, not in wall-clock time: on a loaded machine the loop goroutine may not run for a while, but 150
+			// polls (each waits up to 2 ms) after the last Post returned cannot all miss a wake-up that was written
+			after := 0
 			for ran < expected {
 				if err := ioc.RunOneFor(2 * time.Millisecond); err != nil && err != sonicerrors.ErrTimeout {
 					result <- "loop-error"
@@ -473,9 +475,7 @@ func postBurst(rounds, posters, per int) (bool, string) {
 				}
 				select {
 				case <-returned:
-					if since.IsZero() {
-						since = time.Now()
-					} else if time.Since(since) > 400*time.Millisecond {
+					if after++; after > 150 {
 						result <- "posted-handler-never-run-loop-not-woken"
 						return
 					}
